@@ -116,6 +116,7 @@ def funnel(R, ctx):
     I = FDI(f, effects=EFF, no_inline=[r'State::write_buffer$'])
     rows = I.run(b.path)
     bad = None
+    bad_async = None
     for r in rows:
         if r.undecided:
             bad = 'UNDECIDED ' + r.undecided
@@ -123,11 +124,19 @@ def funnel(R, ctx):
         v = r.get('variant(self)') or 'Sync'
         wb = [e for e in r.effects if e[0].endswith('write_buffer')]
         lock = next((val for a, val in r.cond if a.startswith('variant(std::sync::Mutex::<T>::lock#')), None)
+        if v == 'Async':
+            # every chunk goes through the one FIFO channel: a chunk written directly (whatever the reason: size, emptiness) overtakes
+            # the chunks and records still queued, so the file is no longer the concatenation in call order
+            sends = [e for e in r.effects if re.search(r'Sender::<T>::(send|try_send)$', e[0])]
+            if wb or len(sends) != 1:
+                bad_async = f"async plain_write: {len(sends)} sends and {len(wb)} direct writes on one path; documented: the chunk is sent over the channel, nothing is written past it"
         if v == 'Sync' and lock == 'Ok':
             if len(wb) != 1 or c01.norm(wb[0][1][1]) != 'buffer':
                 bad = f"sync plain_write hands {[e[1][1] for e in wb]} to write_buffer instead of the unchanged chunk"
             ok_len = 'len(' in repr(r.result) and 'buffer' in repr(r.result) or 'write_buffer#' in repr(r.result)
     R.check('R15.3', f"{b.path}|sync", not bad, "sync: lock -> write_buffer(chunk)", f"plain_write: {bad}", where=b.loc())
+    if ctx.has('async'):
+        R.check('R15.3', f"{b.path}|async-through-channel", not bad_async, "async: the chunk is sent over the channel on every path", f"plain_write: {bad_async}", where=b.loc())
     c01.sink_table(R, ctx, 'R15.3')
 
 
